@@ -10,6 +10,7 @@ V: Trace_Batch compares the recorded slots with Batch.tla."""
 import os
 
 import vlib
+from checks import verdicts_common as vc
 from checks import c04
 
 
@@ -27,6 +28,7 @@ def run(ctx):
     ctx.build_harness()
     n, files, cases = ctx.record_and_validate("batch", "Trace_Batch", describe=describe, env={"VERIF_BATCH_BEHAVIOURS": bpath},
                                                key=lambda e, c: "batch %s" % e["_why"])
+    vn, vcases, vdepth = vc.run(ctx, ["batchissuer"])   # Verdicts.tla: ONE batch issuer object over every history of batches
     failing = sum(1 for c in cases if any(k in ("1unk", "1bad", "2unk", "2bad") for k in c["reqs"]) or c["cfg"] != "both")
     return ctx.finish({
         "traces_validated_against_impl": n,
@@ -35,6 +37,7 @@ def run(ctx):
         "rule": "a case is one batch run for one (configuration, request kinds, wire/direct); distinct = distinct such triples; "
                 "%d of them contain a request that must come back absent" % failing,
         "tlc_behaviours": len(beh),
+        **vc.coverage(vn, vcases, vdepth),
         "samples": [c04.short(c) for c in vlib.sample(cases, 4)],
         "exhaustive": True,
         "exhaustive_part": "all request sequences of length 1..%d over 6 kinds x 5 issuer configurations x {direct, over the wire}" % ctx.pick(3, 4),
@@ -45,4 +48,6 @@ def run(ctx):
 
 
 def replay(ctx, path):
+    if vlib.json.load(open(path)).get("family") == "verdicts":
+        return vc.replay(ctx, path)
     return ctx.replay_case(path, "batch", "Trace_Batch")
